@@ -134,6 +134,9 @@ theorem reapWait_pres (L : LeafW I) (pid fuel : Nat) : Pres I (reapWait pid fuel
   | zero => unfold reapWait; pres
   | succ n ih => unfold reapWait; aesop (add safe apply ih) (rule_sets := [Pres]) (config := { terminal := true, useDefaultSimpSet := false, useSimpAll := false, maxRuleApplications := 3000 })
 @[aesop safe apply (rule_sets := [Pres])]
+theorem reapTail_pres (L : LeafW I) (u p : Nat) (st : Option Nat) : Pres I (reapTail u p st) := by
+  unfold reapTail; pres
+@[aesop safe apply (rule_sets := [Pres])]
 theorem reapProcess_pres (L : LeafW I) (u p : Nat) (st : Option Nat) : Pres I (reapProcess u p st) := by
   unfold reapProcess; pres
 @[aesop safe apply (rule_sets := [Pres])]
